@@ -89,6 +89,9 @@ REQUIRED_CLASSES = {
     'bundled:lis-html': 1, 'bundled:rp66v1-html': 1, 'bundled:las-html': 1, 'bundled:rp66v1-index-xml': 1,
 }
 
+# logging.error() & co. call basicConfig() when the root logger has no handler, which would start printing
+logging.getLogger().addHandler(logging.NullHandler())
+
 ORACLE_PARSES = 'document-parses'
 #: the one signature of finding F18a, shared by every route
 SIG_BAD_CHAR_REF = 'unparseable:illegal-character-reference'
@@ -185,6 +188,20 @@ def check_document(cc, data, route, what=''):
     if bad is not None:
         cc.dev(ORACLE_PARSES, bad[0], 'route %s %s: %s' % (route, what, bad[1]))
     return root
+
+
+def release_exception_frames(err):
+    """The writers hand ``open(path, 'w')`` to the stream and rely on garbage collection to close it: after an exception
+    the traceback keeps the file object alive and unflushed.  Drop the frame locals (file names and line numbers of the
+    traceback survive) so that what is read back is what a caller sees once the exception has been handled."""
+    import gc
+    import traceback
+    if err is not None and err.__traceback__ is not None:
+        try:
+            traceback.clear_frames(err.__traceback__)
+        except RuntimeError:
+            pass
+    gc.collect()
 
 
 def check_output_files(cc, directory, route, suffixes=('.html', '.xml', '.svg', '.xhtml')):
@@ -670,6 +687,7 @@ def check_las_html(case, cc):
             err = las_to_html(las_path, html_path)
         finally:
             logging.disable(logging.NOTSET)
+        release_exception_frames(err)
         if not os.path.exists(html_path):
             # the reader refused the text before anything was written: not a document, not C18's business
             cc.cls('las:reader-rejected')
@@ -789,6 +807,7 @@ def check_bundled(case, cc):
             err = ROUTES[route][1](path_in, d)
         finally:
             logging.disable(logging.NOTSET)
+        release_exception_frames(err)
         docs = check_output_files(cc, d, route)
     cc.nt(bool(docs), key=[route, case['file']])
     cc.sample({'route': route, 'file': case['file'], 'documents': sorted(docs)})
@@ -812,8 +831,8 @@ EXTRA_PARTS = []
 
 def parts(tier):
     ret = [
-        HypPart('xml-writer', writer_cases(), check_tree, 5000, 120000),
-        HypPart('las-html', las_html_cases(), check_las_html, 400, 8000),
+        HypPart('xml-writer', writer_cases(), check_tree, 5000, 80000),
+        HypPart('las-html', las_html_cases(), check_las_html, 400, 6000),
         EnumPart('bundled-files', run_bundled, check_bundled),
     ]
     for fn in EXTRA_PARTS:
